@@ -104,7 +104,7 @@ def truthy(v):
     return True
 
 
-BUILTIN = {'+', '-', '*', '=', '<', '>', '!', '&&', '||', 'if', 'let', 'define', 'set', 'fn', 'do', 'while', 'print', 'case', 'quote',
+BUILTIN = {'+', '-', '*', '=', '!=', '<', '>', '!', '&&', '||', 'if', 'let', 'define', 'set', 'fn', 'do', 'while', 'print', 'case', 'quote',
            'quasiquote', 'eval', 'list', 'first', 'second', 'rest', 'length'}
 
 
@@ -299,6 +299,8 @@ class Ref:
             return not any(self.ints(vals))
         if h == '=':
             return all(_eq(v, vals[0]) for v in vals)
+        if h == '!=':
+            return not all(_eq(v, vals[0]) for v in vals)
         iv = self.ints(vals)
         if h == '+':
             return sum(iv)
@@ -502,7 +504,7 @@ class ProgGen:
         n = r.randint(0, 5)
         k = r.choice(['rec', 'counter', 'hof', 'loop', 'shadow', 'quote', 'qq', 'eval', 'variadic', 'setdeep', 'twoclos', 'letseq',
                       'nil1', 'nil2', 'nil3', 'nil4', 'mset', 'mset2', 'msetclo', 'recshadow', 'laterdef', 'evaldef', 'casesym', 'casesym',
-                      'emptylet', 'variadic2', 'letseq2', 'laterdo', 'letdefine', 'conddef', 'opdefine', 'rebind'])
+                      'emptylet', 'variadic2', 'letseq2', 'laterdo', 'letdefine', 'conddef', 'opdefine', 'rebind', 'eq3', 'letdup', 'latelet'])
         f, g, x, y = self.fresh(), self.fresh(), r.choice(self.names), r.choice(self.names)
         if k == 'casesym':
             # clause keys are data: a key that happens to be the name of a variable in scope (at any distance) still
@@ -531,6 +533,16 @@ class ProgGen:
             return [['define', x, n], ['quasiquote', [1, ['unquote', x], ['unquote-splice', ['list', x, 2]], 'z']]]
         if k == 'eval':
             return [['define', x, n], ['eval', ['quote', ['+', x, 1]]], ['let', [[x, 10]], ['eval', ['quote', ['*', x, 2]]]]]
+        if k == 'eq3':
+            # = and != evaluate every operand (each exactly once), whatever the earlier ones were
+            return [['define', x, 0], ['list', ['=', 1, 2, ['do', ['print', {'s': 'e'}], 3]], ['!=', 1, 2, ['do', ['set', [x, ['+', x, n]]], 1]],
+                                       ['=', n, n, ['do', ['set', [x, ['+', x, 1]]], n]]], x, ['=', 1, 2, 'unbound9']]
+        if k == 'letdup':
+            return [['define', x, 1], ['let', [[y + 'd', 1], [y + 'e', 2]], ['+', y + 'd', y + 'e']], ['let', [[y + 'd', 1], [y + 'd', 2]], y + 'd']]
+        if k == 'latelet':
+            # statements of other kinds (a let, a lambda, quoted data) may stand between a closure and the define it refers to
+            return [['define', g, 5], ['let', [[x + 'z', 1]], ['define', f, ['fn', [], [g]]], ['let', [[y + 'q', 1]], y + 'q'], ['quote', [1, 2]],
+                                       ['fn', [], 0], ['define', g, ['fn', [], n]], [f]], g]
         if k == 'rebind':
             # one call site, evaluated several times, follows the binding that is in scope each time
             return [['define', f, ['fn', [], n]], ['define', g, ['fn', [], [f]]], [g], ['set', [f, ['fn', [], ['+', n, 10]]]], [g],
